@@ -22,6 +22,8 @@ namespace OQuPyVerif.BathCorr
 structure ExpFns (K : Type) where
   /-- `np.exp` -/
   exp : K → K
+  /-- `np.expm1` (`exp z - 1` evaluated without cancellation) -/
+  expm1 : K → K
   /-- `1j` -/
   I : K
   /-- `x ** n` with an integer literal `n` -/
@@ -32,6 +34,16 @@ structure ExpFns (K : Type) where
   heaviside : K → K → K
   /-- `.real` -/
   re : K → K
+  /-- `.imag` (as an element of the carrier) -/
+  im : K → K
+  /-- `a < b` for two real-valued quantities -/
+  lt : K → K → Bool
+
+/-- the Python closure `integrand(w)` of `correlation` / `eta_function`: the zero-temperature
+    expression if `self.temperature == 0.0`; otherwise the thermal expression while
+    `np.exp(-w / T) > eps` holds and the guard expression when it does not -/
+def pick {K : Type} (zeroT guardHolds : Bool) (z t g : K) : K :=
+  if zeroT then z else if guardHolds then t else g
 
 /-! ### complex binary64 -/
 
@@ -56,6 +68,14 @@ def cexp (z : CF) : CF :=
   let m := Float.exp z.re
   if z.im == 0.0 then ⟨m, 0.0⟩ else ⟨m * Float.cos z.im, m * Float.sin z.im⟩
 
+/-- `e^z − 1` without cancellation: `e^a − 1 = 2 e^{a/2} sinh(a/2)`, `cos b − 1 = −2 sin²(b/2)` -/
+def cexpm1 (z : CF) : CF :=
+  let em1 := 2.0 * Float.exp (z.re / 2.0) * Float.sinh (z.re / 2.0)
+  if z.im == 0.0 then ⟨em1, 0.0⟩
+  else
+    let s := Float.sin (z.im / 2.0)
+    ⟨em1 * Float.cos z.im - 2.0 * s * s, Float.exp z.re * Float.sin z.im⟩
+
 def cnpow (z : CF) : Nat → CF
   | 0 => ⟨1.0, 0.0⟩
   | 1 => z
@@ -74,8 +94,8 @@ def cheaviside (x h0 : CF) : CF :=
   if x.re > 0.0 then ⟨1.0, 0.0⟩ else if x.re == 0.0 then h0 else ⟨0.0, 0.0⟩
 
 def fns : ExpFns CF :=
-  { exp := cexp, I := ⟨0.0, 1.0⟩, npow := cnpow, pow := cpow, heaviside := cheaviside,
-    re := fun z => ⟨z.re, 0.0⟩ }
+  { exp := cexp, expm1 := cexpm1, I := ⟨0.0, 1.0⟩, npow := cnpow, pow := cpow, heaviside := cheaviside,
+    re := fun z => ⟨z.re, 0.0⟩, im := fun z => ⟨z.im, 0.0⟩, lt := fun a b => a.re < b.re }
 end CF
 
 /-! ### exact complex rationals -/
